@@ -11,7 +11,7 @@ import numpy
 
 from cv import consts
 from cv.core import MachineryError
-from cv.duck import DuckCalc, draw_case, draw_fractions, summary
+from cv.duck import DuckCalc, draw_case, draw_fractions, summary, twin_cases
 from cv.polyeval import close
 from cv.thermo_oracle import ThermoOracle
 from cv.tlc import run_tlc, must_ok
@@ -102,6 +102,7 @@ def main(ctx, replay=None):
     cases[0] = draw_case(rng, nq=1, nat=1)
     cases[1] = draw_case(rng, nq=8, nat=10)
     cases[2] = draw_case(rng, nq=2, nat=2, gamma_zero=False)
+    twin_cases(rng, cases)
     oracle = ThermoOracle(ctx, [(c["nq"], c["na"]) for c in cases])
     ctx.cov["rule"] = ("random spectra within the property's quantifier (1-8 q-points, N=1-10, 30-1500 cm^-1, arbitrary gamma and "
                        "V dgamma/dV, positive weights, T grids with 0 and down to 0.5 K, strain fractions in (0.05,0.9)); a case is "
